@@ -320,7 +320,8 @@ def check(ctx):
         want = {('TYPE_ID in data', False), ('TYPE == data[TYPE_ID]', False), ('VERSION_ID in data', False), ('VERSION == data[VERSION_ID]', False)}
         want2 = {('TYPE_ID in data', False), ('data[TYPE_ID] == TYPE', False), ('VERSION_ID in data', False), ('data[VERSION_ID] == VERSION', False)}
         ctx.inst('R6', r, 'envelope-checked:' + cname, want <= conds or want2 <= conds, 'read must reject a missing/wrong type and version; raise guards %s' % sorted(conds))
-        used = {norm(x.slice).split('.')[-1] for x in ast.walk(r.node) if isinstance(x, ast.Subscript) and norm(x.value) == 'data'}
+        used = {norm(x.slice).split('.')[-1] for x in ast.walk(r.node) if isinstance(x, ast.Subscript) and norm(x.value) == 'data'} | \
+            {norm(x.args[0]).split('.')[-1] for x in ast.walk(r.node) if method_call(x, 'get') and norm(x.func.value) == 'data' and x.args}      # data[K] or data.get(K, default)
         ctx.inst('R6', r, 'payload-keys-read:' + cname, all(k in used for k in payload_keys), 'payload keys read: %s' % sorted(used))
     w = m.func(PIO, 'ParamFileManager.write')
     r = m.func(PIO, 'ParamFileManager.read')
